@@ -346,6 +346,32 @@ def examine(t, v, builder, s, acc=None):
     return found
 
 
+def merge_check(t, s, vals, builder):
+    """Results of several validations merged into one report through the public
+    ValidationResult.add_errors(): every original result must still hold exactly its own errors
+    afterwards, and they must still be true of its own value (errors of one value never leak into
+    the result of another)."""
+    from d42.validation import ValidationResult
+    held = []
+    report = ValidationResult()
+    for v in vals:
+        try:
+            r = validate(s, v)
+        except Exception:  # noqa: BLE001
+            continue
+        held.append((v, r, list(r.get_errors())))
+        report.add_errors(r.get_errors())
+    found = []
+    for v, r, before in held:
+        now = r.get_errors()
+        if len(now) != len(before) or any(a is not b for a, b in zip(now, before)):
+            found.append(("C03|validator|result-holds-other-errors-after-merging-into-a-report",
+                          f"value={src(v)} had {len(before)} error(s), now {len(now)}"))
+            found.extend(check_errors(t, v, now, builder, "validator-after-merge"))
+            break
+    return found
+
+
 def worker(shard, nshards, tier, seed):
     acc = Acc()
     U = list(universe(tier)) + enrich(tier)
@@ -365,6 +391,11 @@ def worker(shard, nshards, tier, seed):
             for sig, detail in examine(t, v, b, s, acc):
                 acc.violation(sig, {"term": src(t), "term_show": show(t), "value": src(v),
                                     "detail": detail})
+        mvals = [v for v in vals[:24]]
+        acc.count("merged_reports")
+        for sig, detail in merge_check(t, s, mvals, b):
+            acc.violation(sig, {"term": src(t), "term_show": show(t), "merge_values": src(mvals),
+                                "detail": detail})
         if i % 131 == 0:
             acc.sample({"schema": show(t), "values": len(vals)})
     return acc
@@ -392,7 +423,9 @@ def run(tier, seed):
 
 
 def replay(case):
-    t, v = unsrc(case["term"]), unsrc(case["value"])
+    t, v = unsrc(case["term"]), unsrc(case.get("value", "None"))
     b = Builder(track=True)
     s = b.build(t)
+    if "merge_values" in case:
+        return [sig for sig, _ in merge_check(t, s, unsrc(case["merge_values"]), b)]
     return [sig for sig, _ in examine(t, v, b, s)]
